@@ -28,6 +28,8 @@ from mc import par
 from props import tagcases as tc
 from props import tagretry as tr
 
+from props import c01
+
 PROP = 'C02'
 CASES = {}
 
@@ -418,7 +420,7 @@ def replay(doc):
         info, results = check_retry(case, d['old_len'], d['new_len'],
                                     d['content'], d.get('tier', 'quick'),
                                     only=(tuple(d['fault']), d['k']))
-        rc = 0
+        rc, sigs = 0, []
         for r, sig, detail in results:
             print('attempt 1 disturbed from command %d (%s) on, %s, %s: %s; '
                   'retry on the same ndef object cut after %d of %d '
@@ -429,16 +431,16 @@ def replay(doc):
             if sig:
                 print('VIOLATION %s' % sig)
                 print('  %r' % (detail,))
-                rc = 1
-        return rc
+                sigs.append(sig)
+        return c01._verdict(doc, sigs)
     results, n, full = check(case, d['old_len'], d['new_len'], d['content'],
                              only_k=d['k'])
-    rc = 0
+    sigs = []
     for k, cls, sig, detail in results:
         print('cut after %d of %d state-changing commands: reader sees %s' % (
             k, n, cls))
         if sig:
             print('VIOLATION %s' % sig)
             print('  %r' % (detail,))
-            rc = 1
-    return rc
+            sigs.append(sig)
+    return c01._verdict(doc, sigs)
